@@ -7,6 +7,7 @@ import (
 
 	"github.com/zerx-lab/wordZero/pkg/document"
 	"github.com/yuin/goldmark/ast"
+	"github.com/yuin/goldmark/util"
 
 	// 添加goldmark扩展的AST节点支持
 	extast "github.com/yuin/goldmark/extension/ast"
@@ -213,6 +214,39 @@ func (r *WordRenderer) renderParagraph(node *ast.Paragraph) (ast.WalkStatus, err
 	return ast.WalkSkipChildren, nil
 }
 
+// textOf 返回文本节点的可见文本：反斜杠转义（\\*、\\# ……）和字符引用（&amp;、&#35; ……）
+// 按CommonMark规则还原为它们表示的字符，而不是原样复制源文本
+func (r *WordRenderer) textOf(n *ast.Text) string {
+	value := n.Segment.Value(r.source)
+	if n.IsRaw() || (!strings.ContainsRune(string(value), '\\') && !strings.ContainsRune(string(value), '&')) {
+		return string(value)
+	}
+	var b strings.Builder
+	for i := 0; i < len(value); i++ {
+		c := value[i]
+		if c == '\\' && i+1 < len(value) && util.IsPunct(value[i+1]) {
+			// 反斜杠转义：输出被转义的标点本身（其后的 & 不再开始字符引用）
+			b.WriteByte(value[i+1])
+			i++
+			continue
+		}
+		if c == '&' {
+			// 字符引用：&name; &#123; &#x1F;
+			if end := strings.IndexByte(string(value[i:]), ';'); end > 1 && end <= 32 {
+				ref := value[i : i+end+1]
+				resolved := util.ResolveNumericReferences(util.ResolveEntityNames(ref))
+				if string(resolved) != string(ref) {
+					b.Write(resolved)
+					i += end
+					continue
+				}
+			}
+		}
+		b.WriteByte(c)
+	}
+	return b.String()
+}
+
 // renderInlineContent 渲染内联内容（文本、强调、链接等）
 func (r *WordRenderer) renderInlineContent(node ast.Node, para *document.Paragraph) {
 	r.renderInlines(node, para, document.TextFormat{})
@@ -225,7 +259,7 @@ func (r *WordRenderer) renderInlines(node ast.Node, para *document.Paragraph, fo
 		f := format
 		switch n := child.(type) {
 		case *ast.Text:
-			text := string(n.Segment.Value(r.source))
+			text := r.textOf(n)
 			para.AddFormattedText(text, &f)
 
 			// 硬换行（行尾两个空格或反斜杠）渲染为段内换行符
@@ -502,7 +536,7 @@ func (r *WordRenderer) extractTextContentRecursive(node ast.Node, buf *strings.B
 	for child := node.FirstChild(); child != nil; child = child.NextSibling() {
 		switch n := child.(type) {
 		case *ast.Text:
-			buf.Write(n.Segment.Value(r.source))
+			buf.WriteString(r.textOf(n))
 		default:
 			r.extractTextContentRecursive(child, buf)
 		}
@@ -741,7 +775,7 @@ func (r *WordRenderer) renderTaskItemContent(parent ast.Node, para *document.Par
 
 		switch n := child.(type) {
 		case *ast.Text:
-			text := string(n.Segment.Value(r.source))
+			text := r.textOf(n)
 			para.AddFormattedText(text, nil)
 			
 			// 处理硬换行和软换行（单个\n）
